@@ -13,6 +13,18 @@ CHECKS = {
         "Trusted: CPython, NumPy, the 30-line Fraction reference; ties and two-sided constraint bounds are outside the statement (generated, counted trivial).",
         "DESIGN.md 2/C04",
     ),
+    "C05": (
+        "exhaustive product enumeration (all orderings x masks x windows x weight vectors; all 81 filter-index maps end-to-end) on the real filter and evaluator",
+        "Bounded exhaustive exploration of the implementation: every ordering, failure mask, window and configured weight vector for n<=5 (quick) / n<=6 (+7 uniform, thorough) on DefaultRealizationFilter; every window in 0..n+1 for configuration-time rejection; every filter-index map over 2 objectives + 2 constraints end-to-end through EnsembleEvaluator.",
+        "Trusted: CPython, NumPy, the 10-line rank-window reference; ties in the sort key are outside the statement.",
+        "DESIGN.md 2/C05",
+    ),
+    "C01": (
+        "exhaustive product enumeration (all estimator maps x all filter maps x all failure masks x weight vectors x batch layouts) through EnsembleEvaluator.calculate with a reference estimator",
+        "Bounded exhaustive exploration of the implementation: for R<=3,F<=3 (quick) / R<=4,F<=4 (thorough) every estimator map, filter map, failure mask, threshold and weight vector is run as single vectors, batches, in different orders and through the functions+gradients path and compared with the reference weighted mean / sample stddev.",
+        "Trusted: CPython, NumPy, the reference estimators in mc/ref.py; filter outputs are taken from separately constructed real filters (decided by C04/C05).",
+        "DESIGN.md 2/C01",
+    ),
 }
 
 NOT_YET = "check not built yet in this session (planned in DESIGN.md section 2); not claimed until its check exists"
